@@ -25,9 +25,15 @@ import (
 type TcCase struct {
 	Kind string `json:"kind"`
 	Text string `json:"text"`
+	// Fault: "" or the name of a fault point in the typecheck worker at which the simulator
+	// makes the worker panic (an injected internal failure): the hand-off must turn it into an
+	// error value, never into success, and the host must survive.
+	Fault string `json:"fault,omitempty"`
 }
 
-var tcKinds = []string{"generated", "junk-program", "byte-mutated", "type-stress", "generated-variant"}
+var tcFaultPoints = []string{"typecheck:start", "typecheck:after-preliminary", "typecheck:after-functions", "typecheck:end"}
+
+var tcKinds = []string{"generated", "junk-program", "byte-mutated", "type-stress", "generated-variant", "name-mutated", "name-mutated", "mutant"}
 
 func DrawTcCase(ch Chooser) *TcCase {
 	c := &TcCase{}
@@ -41,10 +47,21 @@ func DrawTcCase(ch Chooser) *TcCase {
 		c.Text = gen.MutateBytes(ch.Intn, gen.Generate(ch.Intn, gen.Options{}).Text(), 3)
 	case "type-stress":
 		c.Text = gen.TypeStress(ch.Intn)
+	case "name-mutated":
+		p := gen.Generate(ch.Intn, gen.Options{Collide: ch.Intn(2) == 1})
+		gen.MutateNames(p, ch.Intn, 3)
+		c.Text = p.Text()
+	case "mutant":
+		p := gen.Generate(ch.Intn, gen.Options{})
+		gen.Mutate(p, ch.Intn)
+		c.Text = p.Text()
 	default:
 		p := gen.Generate(ch.Intn, gen.Options{})
 		gen.ApplyTypeVariants(p, ch.Intn)
 		c.Text = p.Text()
+	}
+	if ch.Intn(5) == 1 {
+		c.Fault = tcFaultPoints[ch.Intn(len(tcFaultPoints))]
 	}
 	return c
 }
@@ -58,9 +75,10 @@ type TcResult struct {
 	WorkerLeaked bool   // still alive (durably blocked) after quiescence
 	Deadlock     string
 	ErrText      string
+	FaultFired   bool
 }
 
-func typecheckInBubble(t *testing.T, src string) (res TcResult) {
+func typecheckInBubble(t *testing.T, src string, fault string) (res TcResult) {
 	func() {
 		defer func() {
 			if r := recover(); r != nil {
@@ -90,7 +108,15 @@ func typecheckInBubble(t *testing.T, src string) (res TcResult) {
 					worker = "exited"
 				}
 			}
-			defer func() { process.SimTypecheckExit = nil }()
+			defer func() { process.SimTypecheckExit = nil; process.SimFault = nil }()
+			if fault != "" {
+				process.SimFault = func(point string) {
+					if point == fault {
+						res.FaultFired = true
+						panic("injected fault at " + point)
+					}
+				}
+			}
 			err = process.Typecheck(procs, assumed, env)
 			res.Returned = true
 			res.WorkerAtRet = worker
@@ -112,7 +138,7 @@ func typecheckInBubble(t *testing.T, src string) (res TcResult) {
 }
 
 func ExecTcCase(t *testing.T, c *TcCase) (*Violation, TcResult) {
-	r := typecheckInBubble(t, c.Text)
+	r := typecheckInBubble(t, c.Text, c.Fault)
 	mk := func(class, msg string) *Violation {
 		return &Violation{Prop: "C09", Class: class, Msg: trunc(msg, 400)}
 	}
@@ -130,6 +156,13 @@ func ExecTcCase(t *testing.T, c *TcCase) (*Violation, TcResult) {
 	}
 	if r.Verdict == "accept" && r.WorkerFinal != "exited" {
 		return mk("success-without-completion", "Typecheck reported success but the checker goroutine is "+r.WorkerFinal), r
+	}
+	if r.FaultFired {
+		// fault configuration: the injected failure must surface as an error value
+		if r.Verdict == "accept" {
+			return mk("success-after-panic", "an internal failure was injected at "+c.Fault+" and Typecheck still reported success"), r
+		}
+		return nil, r
 	}
 	if strings.HasPrefix(r.ErrText, "internal typechecker error") {
 		return mk("internal-failure", "the checker failed internally (recovered panic): "+r.ErrText), r
@@ -168,6 +201,9 @@ func init() {
 					o.Runs++
 					o.Extra["kind_"+c.Kind]++
 					o.Extra["verdict_"+r.Verdict]++
+					if r.FaultFired {
+						o.Faults["injected_worker_panic_"+c.Fault]++
+					}
 					if r.WorkerLeaked {
 						o.Extra["leaked_workers(blocked for ever, harmless)"]++
 					}
